@@ -141,3 +141,57 @@ func (x *Ex) bodyStmts(body *LeanFile, rel, recv, fn, leanName string, pids ...s
 		}
 	}
 }
+
+// bodyGroup emits the collapsed source of a group of functions as one Lean value
+// `<leanName> : List (String × List String)` (function, its top-level statements) and its
+// expected twin from expect/bodies/<leanName>.json; any difference re-opens the listed properties.
+func (x *Ex) bodyGroup(body *LeanFile, leanName string, pids []string, fns [][3]string) {
+	type entry struct {
+		Func  string
+		Stmts []string
+	}
+	var cur []entry
+	for _, f := range fns {
+		fd := x.funcDecl(f[0], f[1], f[2])
+		e := entry{Func: f[0] + "." + f[1] + "." + f[2]}
+		if fd == nil {
+			x.fail("%s.%s.%s not found", f[0], f[1], f[2])
+		} else {
+			for _, s := range fd.Body.List {
+				e.Stmts = append(e.Stmts, collapse(x.src(s)))
+			}
+		}
+		cur = append(cur, e)
+	}
+	render := func(es []entry) string {
+		var parts []string
+		for _, e := range es {
+			parts = append(parts, "("+leanStr(e.Func)+", ["+joinLean(e.Stmts)+"])")
+		}
+		return strings.Join(parts, ",\n   ")
+	}
+	body.def("top-level statements of a group of functions", "def "+leanName+" : List (String × List String) :=\n  ["+render(cur)+"]")
+	if out := os.Getenv("VERIF_DUMP_INVENTORY"); out != "" {
+		os.MkdirAll(filepath.Join(out, "bodies"), 0o755)
+		jb, _ := json.MarshalIndent(cur, "", " ")
+		os.WriteFile(filepath.Join(out, "bodies", leanName+".json"), jb, 0o644)
+	}
+	b, err := os.ReadFile(filepath.Join(x.expect, "bodies", leanName+".json"))
+	if err != nil {
+		return
+	}
+	var exp []entry
+	json.Unmarshal(b, &exp)
+	body.def("expectation go/extract/expect/bodies/"+leanName+".json", "def "+leanName+"Expected : List (String × List String) :=\n  ["+render(exp)+"]")
+	byName := map[string]string{}
+	for _, e := range exp {
+		byName[e.Func] = strings.Join(e.Stmts, "\x00")
+	}
+	for _, e := range cur {
+		if old, ok := byName[e.Func]; !ok || old != strings.Join(e.Stmts, "\x00") {
+			for _, p := range pids {
+				x.invDiffs[p] = append(x.invDiffs[p], fmt.Sprintf("%s: statements differ from the expectation (%s)", e.Func, leanName))
+			}
+		}
+	}
+}
